@@ -2184,7 +2184,23 @@ def c16(ctx):
     u = FieldUse(k, 'desync::PipeStreamCore')
     key = 'pipe|stop-on-closed'
     reads = u.reads.get('closed', [])
-    if len(reads) >= 2:
+    # a poll that reads its input and then goes (back) to sleep has looked at `closed` on the way: the poll that PipeStream::drop's wake-up
+    # triggers then ends the pipe instead of parking again.  (One test is enough when it is made in the critical section that registers
+    # the close notifier - LW1 - and two are needed when registration and first test are apart; what is necessary is a test on every path.)
+    from .ordq import field_test_edges, feasible_reach
+    tests_c = set(sb for sb, _ in field_test_edges(k, 'closed', 'lock('))
+    polls_c = [s_ for s_ in cg(ctx).sites.get(k.name, []) if s_.kind == 'poll' and 'poll_next' in (s_.t['func'].get('fn') or '')]
+    prb_c = pipe_result_blocks(ctx, k)
+    if len(polls_c) == 1 and prb_c and polls_c[0].t['target'] is not None:
+        after_c = k.reachable_blocks(polls_c[0].t['target'])
+        keeps_c = set(b for b in prb_c[0] if b in after_c)
+        if not keeps_c:
+            out.append(undecided(R, key, 'no "keep polling" answer after the input poll'))
+        elif tests_c and (k.must_pass(0, keeps_c, tests_c) or not feasible_reach(k, 0, keeps_c, tests_c)):
+            out.append(ok(R, key, 'every poll that reads the input and answers "keep polling" has tested `closed` (%d read site(s))' % len(reads), fn=k.name))
+        else:
+            out.append(bad(R, key, 'the producer can poll its input and go back to sleep without having looked at `closed`: the poll that follows the drop of the output stream parks again instead of ending the pipe', fn=k.name))
+    elif len(reads) >= 2:
         out.append(ok(R, key, '`closed` is consulted at the start of the poll and again before going to sleep (%d reads)' % len(reads), fn=k.name))
     else:
         out.append(bad(R, key, 'the producer consults `closed` only %d time(s)' % len(reads), fn=k.name))
@@ -2218,10 +2234,10 @@ def c16(ctx):
         closed_true = None
     if closed_true is None:
         pass
-    elif len(closed_true) < 2:
-        out.append(undecided(R, key, 'expected two tests of `closed` in the producer, found %d' % len(closed_true)))
+    elif len(closed_true) < 1:
+        out.append(undecided(R, key, 'no test of `closed` found in the producer'))
     elif all(_ret_consts(e_) == {'0'} for e_ in closed_true):
-        out.append(ok(R, key, 'both tests of `closed` lead to `return false` (the poll function, input stream and closure are then released)', fn=k.name))
+        out.append(ok(R, key, 'every test of `closed` (%d) leads to `return false` (the poll function, input stream and closure are then released)' % len(closed_true), fn=k.name))
     else:
         out.append(bad(R, key, 'the producer sees the core closed but keeps the pipe alive (does not return false)', fn=k.name))
     # a pipe whose output is dropped while its producer sleeps on back-pressure is only released if (a) a spent PipeWaker no longer holds
